@@ -3,11 +3,11 @@
    (and, for temporal, its position in the call sequence); the harness expands the symbols with the
    implementation's own string-level results.
    input  = (cfg rows errtab)
-     cfg    = (header has_onset has_refs (cat ...) fixed npre npost)
+     cfg    = (header has_onset has_refs (cat ...) fixed npre npost fix_none fix_value fix_mask)
      rows   = ((onset|N ((col id skip) ...) (badkey ...) delaytext ((num|N unit) ...)) ...)
      errtab = ((cellid haserror) ...)
    output = (ok ((src row|- col|-) ...)) | (exn E)
-     src = (B id) (F ann) (N ann) (T k ann) (P i) (Q i) U K ;  ann = ((J id..)|(C id..)|(R id..)|(D k id..) ...) *)
+     src = (B id) (F ann) (N ann) (T k ann) (P i) (Q i) U K ;  ann = ((J id..)|(C id..)|(R (k..) id..)|(D k id..) ...) *)
 type sym = YBasic of int * bool | YFull of ann | YBanned of ann | YTemp of int * ann | YPre of int | YPost of int
 
 let exn_sx (e : exn) : sx = A (match e with
@@ -39,7 +39,7 @@ let ids_sx l = List.map (fun i -> A (string_of_int (int_of_n i))) l
 let piece_sx = function
   | PJoin ids -> L (A "J" :: ids_sx ids)
   | PCells ids -> L (A "C" :: ids_sx ids)
-  | PRem ids -> L (A "R" :: ids_sx ids)
+  | PRem (ids, ks) -> L (A "R" :: L (List.map nat_sx ks) :: ids_sx ids)
   | PDelay (ids, k) -> L (A "D" :: nat_sx k :: ids_sx ids)
 let ann_sx (a : ann) = L (List.map piece_sx a)
 
@@ -62,10 +62,12 @@ let () = main_loop (fun x ->
   ignore (force_types O N0);
   match sx_list x with
   | [cfg; rows; errtab] ->
-    let header, has_onset, has_refs, cats, fixed, npre, npost = match sx_list cfg with
-      | [h; o; r; c; f; p; q] -> sx_bool h, sx_bool o, sx_bool r, List.map sx_n (sx_list c), sx_bool f, sx_int p, sx_int q
+    let header, has_onset, has_refs, cats, fixed, npre, npost, fn, fv, fm = match sx_list cfg with
+      | [h; o; r; c; f; p; q; a; b; m] ->
+        sx_bool h, sx_bool o, sx_bool r, List.map sx_n (sx_list c), sx_bool f, sx_int p, sx_int q, sx_bool a, sx_bool b, sx_bool m
       | _ -> failwith "cfg" in
-    let cfg = { cf_header = header; cf_has_onset = has_onset; cf_has_refs = has_refs; cf_cats = cats; cf_fixed = fixed } in
+    let cfg = { cf_header = header; cf_has_onset = has_onset; cf_has_refs = has_refs; cf_cats = cats; cf_fixed = fixed;
+                cf_fix_none = fn; cf_fix_value = fv; cf_fix_mask = fm } in
     let t = List.map sx_row (sx_list rows) in
     let tab = Hashtbl.create 64 in
     List.iter (fun e -> match sx_list e with [i; b] -> Hashtbl.replace tab (sx_int i) (sx_bool b) | _ -> failwith "errtab")
